@@ -414,6 +414,11 @@ func (tx *Transaction) VerifyTxBody(chainID uint16, timeStamp uint64, isBlockTx 
 			return ErrGasPrice
 		}
 	}
+	// sub transactions in box come from json. Their gas price could be negative
+	if tx.GasPrice().Sign() < 0 {
+		log.Errorf("Tx gas price is negative. tx gas price: %s", tx.GasPrice().String())
+		return ErrGasPrice
+	}
 	// verify time
 	if tx.Expiration() < timeStamp {
 		log.Errorf("Received transaction expiration time is less than current time. Expiration time: %d. The current time: %d", tx.Expiration(), timeStamp)
